@@ -5,6 +5,7 @@ package main
 // run on it, and the output is read with the harness's own table expansion.
 
 import (
+	"strings"
 	"bytes"
 	"encoding/binary"
 	"encoding/json"
@@ -388,6 +389,10 @@ func c10Replay(args []string) error {
 			}
 			cs := J{"tracks": c.Tracks, "d": c.D, "variant": []string{"stco", "co64", "mdat-first", "edts", "mdat-largesize", "mdat-largesize-first"}[variant], "expected_kept": c.Kept, "endtime": c.EndTime}
 			if err != nil {
+				if strings.Contains(stderr.String(), "goroutine ") && strings.Contains(stderr.String(), "panic") {
+					first := strings.SplitN(stderr.String(), "\n", 2)[0]
+					rep.Violation("crop/tool-panics", "mp4ff-crop panics on a well-formed progressive file: "+first, cs)
+				}
 				stats.Lock()
 				stats.fail++
 				if c.Defined {
